@@ -124,6 +124,17 @@ pub fn run(rep: &mut Rep) {
                             w.settle_check();
                         }
                     }
+                    // in half of the cases a ping, a subscribe or an unsubscribe is unanswered when the connection is lost: no
+                    // exchange that counts against the window
+                    if finished_before == 2 {
+                        w.start(1, [Kind::Ping, Kind::Sub, Kind::Unsub][(si + r2.unwrap_or(0) as usize) % 3]);
+                        w.settle_check();
+                        if si % 2 == 1 {
+                            w.start(0, Kind::Ping);
+                            w.settle_check();
+                        }
+                        rep.add("resumption_cases_with_unanswered_non_publish_requests", 1);
+                    }
                     w.eof();
                     w.settle_check();
                     let resumed = w.resume_full(ResumeOpts { secs_ago: 1, sei: Some(3600), receive_max: r2, ..Default::default() });
